@@ -15,7 +15,8 @@ from .. import gen_exec, ser
 PROP = "C18"
 THEOREMS = ["C18_refines", "C18_balanced", "C18_once", "C18_identity", "C18_delete", "C18_replace",
             "C18_skip", "C18_list_local", "C18_chain", "C18_dispatch_total",
-            "C18_coverage_partial", "C18_coverage_refuted"]
+            "C18_coverage_partial", "C18_coverage_exact", "C18_coverage_refuted",
+            "C18_terminates", "C18_keep_total"]
 AXIOMS_OK = []
 RUN_MODULE = "Run.C18run Lang.VisitorModel"
 AGREE = "agree_C18"
